@@ -25,6 +25,7 @@ func init() {
 			"S8 on the error edge of Pipestance.Lock no pipestance is returned. " +
 			"S9 the lock file is removed only behind readOnly() == false; S10 the pipestance-level metadata cache is rescanned only by Lock or behind readOnly()/the readOnly parameter being false (Immortalize tabled). " +
 			"S11 re-attach applies os.ExpandEnv when InvokePipeline does. " +
+			"S12 a loop of the syntax package that skips elements by a set lookup keys the set by everything the skipped calls depend on. " +
 			"NOT decided: completeness (that cosmetic edits are accepted), races between two simultaneous first starts.",
 		Assumptions: commonAssumptions,
 	}
@@ -46,6 +47,7 @@ func runC15(c *an.Ctx) {
 	ruleS9(c)
 	ruleS10(c)
 	ruleS11(c)
+	ruleMemoKey(c, "S12", "martian/syntax")
 }
 
 func relationFuncs(c *an.Ctx) []*ssa.Function {
